@@ -222,6 +222,13 @@ func (x *c13World) apply(op string, last bool) (enabled bool) {
 		s.status = 2
 		x.baseRoster(s)
 	case "info":
+		if s.status == 1 && arg == 0 {
+			// a client that sets its name and icon before it has agreed: nobody is told (it is not on any list yet), the
+			// name it agrees with later is what counts
+			s.c.Req(ref.TSetClientUserInfo, ref.FS(ref.FUserName, fmt.Sprintf("early%d", k)), ref.F16(ref.FUserIconID, uint16(40+k)))
+			settle()
+			break
+		}
 		if s.status != 2 {
 			return false
 		}
@@ -589,7 +596,7 @@ func c13Exec(shift int) func(hist []string) explore.SeqResult {
 
 func c13Alphabet() []string {
 	a := []string{"c123:0", "c123:1", "c123:2", "c15:1", "c15:2", "agree:1:0", "agree:1:5", "agree:2:0", "agree:2:6", "agree:1:8", "agree:2:9", "agree:1:10",
-		"info:0:0", "info:1:1", "info:1:2", "info:2:2", "info:1:3", "info:1:4", "priv:1", "priv:2", "bye:0", "bye:1", "bye:2",
+		"info:0:0", "info:1:0", "info:1:1", "info:1:2", "info:2:2", "info:1:3", "info:1:4", "priv:1", "priv:2", "bye:0", "bye:1", "bye:2",
 		"pm:0:1", "pm:1:0", "pm:1:2", "pm:2:1", "pm:0:2", "pm:2:0", "inv:0:1", "inv:1:2", "ginfo:0:1", "ginfo:1:2", "kick:0:1", "kick:0:2", "stale:0:0", "stale:1:1", "stale:1:2", "stale:0:3"}
 	return a
 }
